@@ -386,10 +386,16 @@ namespace lang {
 void to_json(JSON& object, const LexicalTerm& term) {
   object = term.Text();
   object["forms"] = JSON::array();
+  // Note: manual forms live in a hash map. Output them ordered by tags to make the document reproducible
+  std::vector<std::pair<std::string, std::string>> forms{};
   for (const auto& [form, text] : term.GetAllManual()) {
+    forms.emplace_back(form.ToString(), text);
+  }
+  std::sort(begin(forms), end(forms));
+  for (const auto& [tags, text] : forms) {
     object["forms"] += JSON{
       {"text", text},
-      {"tags", form.ToString()}
+      {"tags", tags}
     };
   }
 }
